@@ -63,11 +63,19 @@ Fixpoint sum_chunk (tr : list wev) : Z :=
   match tr with [] => 0 | EvLzma u _ :: r => u + sum_chunk r | EvUnc u :: r => u + sum_chunk r | _ :: r => sum_chunk r end.
 
 (* the four sums and the symbol lengths at once *)
-(* the lengths of the symbols, newest first *)
-Fixpoint rsyms (tr : list wev) : list Z :=
-  match tr with [] => [] | EvSym len _ :: r => len :: rsyms r | _ :: r => rsyms r end.
+(* what determines the output besides the data: the symbols (here: their lengths; everything else
+   the parser decided lives in its state) and the chunk decisions, newest first *)
+Inductive iev : Type := ISym (len : Z) | ILzma (u c : Z) | IUnc (u : Z).
+Fixpoint rsyms (tr : list wev) : list iev :=
+  match tr with
+  | [] => []
+  | EvSym len _ :: r => ISym len :: rsyms r
+  | EvLzma u c :: r => ILzma u c :: rsyms r
+  | EvUnc u :: r => IUnc u :: rsyms r
+  | _ :: r => rsyms r
+  end.
 
-Definition acct (tr : list wev) : Z * Z * Z * Z * list Z := (sum_sym tr, sum_fill tr, sum_abs tr, sum_chunk tr, rsyms tr).
+Definition acct (tr : list wev) : Z * Z * Z * Z * list iev := (sum_sym tr, sum_fill tr, sum_abs tr, sum_chunk tr, rsyms tr).
 
 (* ---------------------------------------------------------------------------------------------
    configuration *)
@@ -548,19 +556,19 @@ Section Oracle.
      parser state); [T] = logical end of all data (kept preset bytes + every byte that will be
      written).  One step = the forced first literal, or one consultation of the parser. *)
   Definition ist : Type := (Z * Z * PS)%type.
-  Definition istep (p : lzp) (T : Z) (st : ist) : option (ist * Z) :=
+  Definition istep (p : lzp) (T : Z) (st : ist) : option (ist * iev) :=
     let '(P, ra, ps) := st in
-    if P =? 0 then (if 1 <=? T then Some ((1, -1, ps), 1) else None)
+    if P =? 0 then (if 1 <=? T then Some ((1, -1, ps), ISym 1) else None)
     else match irun p (parse ps P ra) (T - (P + ra)) ra with
-         | Some (ra1, len, full, ps1) => Some ((P + len, ra1 - len, ps1), len)
+         | Some (ra1, len, full, ps1) => Some ((P + len, ra1 - len, ps1), ISym len)
          | None => None
          end.
   (* n steps; the symbol lengths newest first *)
-  Fixpoint isteps (p : lzp) (T : Z) (n : nat) (st : ist) (acc : list Z) : option (ist * list Z) :=
+  Fixpoint isteps (p : lzp) (T : Z) (n : nat) (st : ist) (acc : list iev) : option (ist * list iev) :=
     match n with
     | O => Some (st, acc)
     | S k => match istep p T st with
-             | Some (st1, len) => isteps p T k st1 (len :: acc)
+             | Some (st1, ev) => isteps p T k st1 (ev :: acc)
              | None => None
              end
     end.
@@ -591,7 +599,7 @@ Section Oracle.
     - discriminate.
   Qed.
 
-  Lemma istep_P p T P ra ps P1 ra1 ps1 len : istep p T (P, ra, ps) = Some ((P1, ra1, ps1), len) -> 0 <= P -> P < P1.
+  Lemma istep_P p T P ra ps P1 ra1 ps1 ev : istep p T (P, ra, ps) = Some ((P1, ra1, ps1), ev) -> 0 <= P -> P < P1.
   Proof.
     unfold istep. intros H HP. destruct (Z.eqb_spec P 0).
     - destruct (1 <=? T); [|discriminate]. injection H as <- _ _ _. lia.
@@ -651,8 +659,8 @@ Section Oracle.
           pending_size (e_lz e) <= pending_size (e_lz e1) /\
           (match_len_max p + extra_after p <= write_pos (e_lz e) - pidx e -> pending_size (e_lz e1) = pending_size (e_lz e)) /\
           sum_abs tr1 = sum_abs tr /\ pidx e1 - pidx e <= SYM_MAX p /\
-          rsyms tr1 = (pidx e1 - pidx e) :: rsyms tr /\
-          (forall T, Vc p e T -> istep p T (est e ps) = Some (est e1 ps1, pidx e1 - pidx e))
+          rsyms tr1 = ISym (pidx e1 - pidx e) :: rsyms tr /\
+          (forall T, Vc p e T -> istep p T (est e ps) = Some (est e1 ps1, ISym (pidx e1 - pidx e)))
       end).
   Proof.
     intros W I Hcap Hp1. pose proof W as [W1 W2 W3 W4 W5 W6 W7 W8 W9 W10].
@@ -709,7 +717,7 @@ Section Oracle.
     split; [lia|]. split; [lia|]. split; [exact X1|]. split; [exact X2|]. split; [exact X3|]. split; [exact X6|].
     split; [lia|]. split; [exact X9|]. split; [exact X10|]. split; [cbn [sum_abs]; exact E3|].
     split; [unfold SYM_MAX; destruct (Z.eq_dec k1 0); [|specialize (Hk4 ltac:(lia))]; lia|].
-    split; [cbn [rsyms]; rewrite E5; f_equal; lia|].
+    split; [cbn [rsyms]; rewrite E5; do 2 f_equal; lia|].
     intros T HV. unfold istep, est.
     assert (Hlp : logical_pos e =? 0 = false).
     { apply Z.eqb_neq. rewrite logical_pidx. unfold pidx. lia. }
@@ -733,8 +741,8 @@ Section Oracle.
         write_pos (e_lz e1) = write_pos (e_lz e) /\ read_limit (e_lz e1) = read_limit (e_lz e) /\
         finishing (e_lz e1) = finishing (e_lz e) /\ g_base e1 = g_base e /\ unc_size e1 = 1 /\
         (req_flush p <= write_pos (e_lz e) -> pending_size (e_lz e1) = 0) /\ ~ quiet e /\ sum_abs tr1 = sum_abs tr /\
-        rsyms tr1 = 1 :: rsyms tr /\
-        (forall T ps, g_base e + write_pos (e_lz e) <= T -> istep p T (est e ps) = Some (est e1 ps, 1))
+        rsyms tr1 = ISym 1 :: rsyms tr /\
+        (forall T ps, g_base e + write_pos (e_lz e) <= T -> istep p T (est e ps) = Some (est e1 ps, ISym 1))
       else e1 = e /\ tr1 = tr /\ quiet e).
   Proof.
     intros W I Hcap Hns. pose proof W as [W1 W2 W3 W4 W5 W6 W7 W8 W9 W10].
@@ -826,8 +834,8 @@ Section Oracle.
             assert (HV1 : Vc p e1 T).
             { unfold Vc, steady in *. rewrite X2, X3, X4, X5.
               destruct HV as [HV|[HT [Hq|Hs]]]; [left; exact HV|contradiction|right; split; [exact HT|right; exact Hs]]. }
-            destruct (YI T ((pidx e1 - pidx e) :: acc) HV1) as (n & L & En & Er).
-            exists (S n), (L ++ [pidx e1 - pidx e]). cbn [isteps]. rewrite (XI T HV).
+            destruct (YI T (ISym (pidx e1 - pidx e) :: acc) HV1) as (n & L & En & Er).
+            exists (S n), (L ++ [ISym (pidx e1 - pidx e)]). cbn [isteps]. rewrite (XI T HV).
             rewrite <- app_assoc. cbn [app]. split; [exact En|]. rewrite Er, XR, <- app_assoc. reflexivity. }
         intros Hnf Hst.
         rewrite Y8 by (rewrite ?X2, ?X3, ?X4; assumption).
@@ -876,8 +884,8 @@ Section Oracle.
         assert (HV1 : Vc p e1 T).
         { unfold Vc, steady in *. rewrite X2, X3, X4, X5.
           destruct HV as [HV|[HT' [Hq|Hs]]]; [left; exact HV|contradiction|right; split; [exact HT'|right; exact Hs]]. }
-        destruct (YI T (1 :: acc) HV1) as (n & L & En & Er).
-        exists (S n), (L ++ [1]). cbn [isteps]. rewrite (XI T ps HT).
+        destruct (YI T (ISym 1 :: acc) HV1) as (n & L & En & Er).
+        exists (S n), (L ++ [ISym 1]). cbn [isteps]. rewrite (XI T ps HT).
         rewrite <- app_assoc. cbn [app]. split; [exact En|]. rewrite Er, XR, <- app_assoc. reflexivity.
       + intros (E1 & E2 & Q). subst e1 tr1. cbn [okor].
         split; [exact I|]. split; [exact Hcap|]. split; [exact Q|].
